@@ -84,6 +84,11 @@ Definition clamp {A} (l : list A) (k : Z) : nat :=
   let j := if k <? 0 then Z.max 0 (k + Z.of_nat (length l)) else k in Nat.min (Z.to_nat j) (length l).
 Definition slice_from {A} (l : list A) (k : Z) : list A := skipn (clamp l k) l.
 Definition slice_to {A} (l : list A) (k : Z) : list A := firstn (clamp l k) l.
+Definition slice_range {A} (l : list A) (a b : Z) : list A := firstn (clamp l b - clamp l a) (skipn (clamp l a) l).
+(* bitarray comparison: lexicographic, a proper prefix is smaller *)
+Fixpoint bits_ltb (a b : list bool) : bool :=
+  match a, b with [], [] => false | [], _ :: _ => true | _ :: _, [] => false
+  | x :: a', y :: b' => if Bool.eqb x y then bits_ltb a' b' else negb x end.
 Definition chars (s : list ascii) : list (list ascii) := map (fun c => [c]) s.
 Fixpoint str_eqb (a b : list ascii) : bool :=
   match a, b with [], [] => true | x :: a', y :: b' => Ascii.eqb x y && str_eqb a' b' | _, _ => false end.
